@@ -92,6 +92,22 @@ func checkUnpack(c *vlib.Ctx, u unpackFn, b []byte) string {
 		c.Violate("unpack-never-panics", u.name, vlib.PanicSite(stack), fmt.Sprintf("%s(%x) panicked: %v", u.name, b, p), mkw(u.name, b))
 		return "panic"
 	}
+	if len(b) < 12 {
+		var wbuf [24]byte
+		copy(wbuf[:], b)
+		for i := len(b); i < len(wbuf); i++ {
+			wbuf[i] = 0x81
+		}
+		var v2 uint64
+		var n2 int
+		var err2 error
+		p2, stack2 := vlib.Catch(func() { v2, n2, err2 = u.f(wbuf[:len(b)]) })
+		if p2 != nil {
+			c.Violate("unpack-never-panics", u.name, vlib.PanicSite(stack2), fmt.Sprintf("%s(%x as a window into a larger buffer) panicked: %v", u.name, b, p2), mkw(u.name, b))
+		} else if (err == nil) != (err2 == nil) || (err == nil && (v != v2 || n != n2)) {
+			c.Violate("no-read-beyond-input", u.name, "result-depends-on-bytes-behind-the-input", fmt.Sprintf("%s(%x) = (%d,%d,%v) for an exact slice, (%d,%d,%v) as a window into a larger buffer", u.name, b, v, n, err, v2, n2, err2), mkw(u.name, b))
+		}
+	}
 	rv, rn, st := refDecode(b)
 	if st == refOK && rv > u.max {
 		st = refTooLarge
@@ -253,6 +269,22 @@ func checkBlock(c *vlib.Ctx, data []byte) string {
 		c.Violate("block-never-panics", "GetNextBlock", vlib.PanicSite(stack), fmt.Sprintf("GetNextBlock(%x) panicked: %v", data, p), mkw("GetNextBlock", data))
 		return "panic"
 	}
+	// the same input as a window into a larger buffer (len < cap, live bytes behind it): the result must not depend on them
+	{
+		big := make([]byte, len(data), len(data)+12)
+		copy(big, data)
+		big = append(big, 0x41, 0x42, 0x43, 0x44, 0x45, 0x46, 0x47, 0x48, 0x49, 0x4a, 0x4b, 0x4c)
+		win := big[:len(data)]
+		var blk2 []byte
+		var total2 int
+		var err2 error
+		p2, stack2 := vlib.Catch(func() { blk2, total2, err2 = varint.GetNextBlock(win) })
+		if p2 != nil {
+			c.Violate("block-never-panics", "GetNextBlock", vlib.PanicSite(stack2), fmt.Sprintf("GetNextBlock(%x as a window into a larger buffer) panicked: %v", data, p2), mkw("GetNextBlock", data))
+		} else if (err == nil) != (err2 == nil) || total != total2 || !bytes.Equal(blk, blk2) {
+			c.Violate("no-read-beyond-input", "GetNextBlock", "result-depends-on-bytes-behind-the-input", fmt.Sprintf("GetNextBlock(%x) = (%x,%d,%v) for an exact slice, (%x,%d,%v) for the same bytes as a window into a larger buffer", data, blk, total, err, blk2, total2, err2), mkw("GetNextBlock", data))
+		}
+	}
 	l, n, st := refDecode(data)
 	ok := st == refOK && l <= uint64(len(data)-n)
 	minimal := st == refOK && n == len(refPack(l))
@@ -306,7 +338,7 @@ func main() {
 	vlib.Main("C10", "model_checking", func(c *vlib.Ctx) {
 		c.Rule("exhaustive enumeration: all 2^8/2^16 values, 2^24 low range + every value within 3 of every power of two for 32/64 bit (round trip, minimality, EncodedSize, trailing bytes; each encoding is also given to every narrower unpacker, which must refuse it; the caller overwrites every packed result and packs again); " +
 			"all byte strings of length<=3 and all strings of length 4..10 over {00,01,7f,80,ff} and all runs of 8..12 continuation bytes over {80,ff} followed by <= 2 bytes for every UnpackN and GetNextBlock; GetNextBlock over all byte strings <=3, 5-symbol strings <=7 and every boundary length prefix x short payload; " +
-			"non-trivial = distinct byte strings that start a multi-byte varint (first byte >= 0x80, length >= 2), counted while enumerating; each input evaluated against the textbook reference")
+			"non-trivial = distinct byte strings that start a multi-byte varint (first byte >= 0x80, length >= 2), counted while enumerating; each input evaluated against the textbook reference, and a second time as a window into a larger buffer with live bytes behind it (same result demanded)")
 		c.Assume("reference decoder treats non-minimal (zero-padded) encodings as 'value or error' since the property only fixes the packed form to be minimal")
 		if c.Replay != "" {
 			var w witness
